@@ -33,6 +33,11 @@ pub fn run(
     validator: ConnectionValidator,
     mut priv_droppers: Vec<PrivilegeDropper>,
 ) -> anyhow::Result<()> {
+    #[cfg(aquatic_verif)]
+    if aquatic_common::verif::probe("udp/socket/start") {
+        return Ok(());
+    }
+
     let mut opt_socket_ipv4 = if config.network.use_ipv4 {
         let priv_dropper = priv_droppers.pop().expect("not enough privilege droppers");
 
@@ -86,6 +91,11 @@ pub fn run(
     let mut iter_counter = 0u64;
 
     loop {
+        #[cfg(aquatic_verif)]
+        if aquatic_common::verif::probe("udp/socket/loop") {
+            return Ok(());
+        }
+
         poll.poll(&mut events, Some(poll_timeout)).context("poll")?;
 
         for event in events.iter() {
